@@ -164,6 +164,8 @@ class Engine:
                 if m:
                     tr,ty=self.src.impl_at(m.group(1))
                     self.impl_index[(tr,ty,m.group(2))].append(b)
+                    if tr=='Error' and m.group(2)=='fmt':       # #[derive(thiserror::Error)] generates the Display impl
+                        self.impl_index[('Display',ty,'fmt')].append(b)
                 if re.search(r'\{closure#\d+\}$',b.name) and b.params:
                     m=re.search(r'\{closure@([^}]*)\}',b.params[0][1])
                     if m: self.closure_index[m.group(1)]=b
